@@ -36,6 +36,18 @@ type frame struct {
 	rets   []Ret
 	args   []Value
 	binds  []Value
+	// unrolling of constant-trip loops
+	unroll   map[*ssa.BasicBlock]*unrollCtx // by header, while the loop is being / has been unrolled
+	unrolled map[*ssa.BasicBlock]bool       // blocks already evaluated by the unroller
+}
+
+type unrollCtx struct {
+	k      int64
+	ind    *ssa.Phi
+	init   int64
+	step   int64
+	prev   map[*ssa.Phi]Value // header phi -> value carried from the previous iteration
+	active bool
 }
 
 // Call evaluates fn on args in state st (which is not modified) and returns its returns.
@@ -44,16 +56,161 @@ func (e *Engine) Call(fn *ssa.Function, args []Value, binds []Value, st *State, 
 		return nil
 	}
 	fr := &frame{fn: fn, vals: map[ssa.Value]Value{}, out: map[*ssa.BasicBlock]map[*ssa.BasicBlock]*State{}, depth: depth, args: args, binds: binds}
+	fr.unroll = map[*ssa.BasicBlock]*unrollCtx{}
+	fr.unrolled = map[*ssa.BasicBlock]bool{}
 	fr.findLoops()
 	order := fr.order()
 	for _, b := range order {
+		if fr.unrolled[b] {
+			continue
+		}
 		in := e.entryState(fr, b, st)
 		if in == nil || in.dead {
 			continue
 		}
+		if l := fr.loops[b]; l != nil {
+			if ind, init, step, n, ok := constTrip(fr, l); ok {
+				e.unrollLoop(fr, l, order, in, ind, init, step, n)
+				continue
+			}
+		}
 		e.runBlock(fr, b, in)
 	}
 	return fr.rets
+}
+
+// constTrip recognises `for i := a; i < c; i += s` with constants (innermost loop, one latch,
+// exit only from the header) and returns the trip count.
+func constTrip(fr *frame, l *loopInfo) (ind *ssa.Phi, init, step, n int64, ok bool) {
+	if len(l.latches) != 1 {
+		return
+	}
+	for _, o := range fr.loops {
+		if o != l && l.blocks[o.header] {
+			return // has an inner loop
+		}
+	}
+	h := l.header
+	iff, isIf := h.Instrs[len(h.Instrs)-1].(*ssa.If)
+	if !isIf || !l.blocks[h.Succs[0]] || l.blocks[h.Succs[1]] {
+		return
+	}
+	for b := range l.blocks {
+		if b == h {
+			continue
+		}
+		for _, sc := range b.Succs {
+			if !l.blocks[sc] {
+				if _, isRet := sc.Instrs[len(sc.Instrs)-1].(*ssa.Return); !isRet {
+					return // leaves the loop other than by returning
+				}
+			}
+		}
+	}
+	cmp, isCmp := iff.Cond.(*ssa.BinOp)
+	if !isCmp || cmp.Op != token.LSS {
+		return
+	}
+	phi, isPhi := cmp.X.(*ssa.Phi)
+	k, isK := cmp.Y.(*ssa.Const)
+	if !isPhi || !isK || phi.Block() != h {
+		return
+	}
+	bound, okb := constOf(k)
+	var initV, stepV ssa.Value
+	for i, p := range h.Preds {
+		if l.blocks[p] {
+			stepV = phi.Edges[i]
+		} else {
+			initV = phi.Edges[i]
+		}
+	}
+	ic, isIC := initV.(*ssa.Const)
+	if !okb || !isIC || stepV == nil {
+		return
+	}
+	a, oka := constOf(ic)
+	sc, oks := stepConst(phi, stepV)
+	if !oka || !oks || sc <= 0 {
+		return
+	}
+	cnt := int64(0)
+	if int64(bound) > int64(a) {
+		cnt = (int64(bound) - int64(a) + sc - 1) / sc
+	}
+	if cnt > 64 {
+		return
+	}
+	return phi, int64(a), sc, cnt, true
+}
+
+// unrollLoop evaluates the loop n times with a concrete induction value, then takes the exit edge.
+func (e *Engine) unrollLoop(fr *frame, l *loopInfo, order []*ssa.BasicBlock, in *State, ind *ssa.Phi, init, step, n int64) {
+	ctx := &unrollCtx{ind: ind, init: init, step: step, prev: map[*ssa.Phi]Value{}, active: true}
+	fr.unroll[l.header] = ctx
+	var body []*ssa.BasicBlock
+	for _, b := range order {
+		if l.blocks[b] && b != l.header {
+			body = append(body, b)
+		}
+	}
+	var latchIdx int
+	for i, p := range l.header.Preds {
+		if l.blocks[p] {
+			latchIdx = i
+		}
+	}
+	latch := l.latches[0]
+	clear := func() {
+		for b := range l.blocks {
+			for _, instr := range b.Instrs {
+				if v, ok := instr.(ssa.Value); ok {
+					delete(fr.vals, v)
+				}
+			}
+		}
+	}
+	st := in
+	for k := int64(0); k <= n; k++ {
+		ctx.k = k
+		clear()
+		if st == nil || st.dead {
+			break
+		}
+		e.runBlock(fr, l.header, st.clone())
+		if k == n {
+			break // the header's condition is false now: the exit edge state is set
+		}
+		for _, b := range body {
+			bs := e.entryState(fr, b, in)
+			if bs == nil || bs.dead {
+				continue
+			}
+			e.runBlock(fr, b, bs)
+		}
+		// carry header phis
+		next := map[*ssa.Phi]Value{}
+		ls := fr.out[latch][l.header]
+		for _, instr := range l.header.Instrs {
+			phi, ok := instr.(*ssa.Phi)
+			if !ok {
+				break
+			}
+			next[phi] = e.val(fr, phi.Edges[latchIdx], ls)
+		}
+		ctx.prev = next
+		st = ls
+		// the edge states of this iteration must not leak into the next
+		for b := range l.blocks {
+			if b != latch {
+				delete(fr.out, b)
+			}
+		}
+	}
+	for b := range l.blocks {
+		fr.unrolled[b] = true
+	}
+	ctx.active = false
 }
 
 func (fr *frame) findLoops() {
@@ -192,6 +349,9 @@ func (e *Engine) entryState(fr *frame, b *ssa.BasicBlock, init *State) *State {
 	// loop exits: merge the effects of the loop body (latch states) into the exit state
 	for i, ps := range fwd {
 		for _, l := range fr.loops {
+			if fr.unroll[l.header] != nil {
+				continue // unrolled: the exit state already contains every iteration's effects
+			}
 			if l.blocks[ps.p] && !l.blocks[b] {
 				merged := ps.st.clone()
 				for _, la := range l.latches {
@@ -789,6 +949,25 @@ func (e *Engine) unknownOf(t types.Type, why string) Value {
 
 func (e *Engine) phi(fr *frame, x *ssa.Phi, st *State) Value {
 	b := x.Block()
+	if ctx := fr.unroll[b]; ctx != nil {
+		// unrolled loop: concrete induction value, other phis carried from the previous iteration
+		if x == ctx.ind {
+			w, _ := typeWidth(x.Type())
+			v := ctx.init + ctx.k*ctx.step
+			return &IntV{B: constBV(uint64(v), w), A: affConst(v)}
+		}
+		if ctx.k > 0 {
+			if v, ok := ctx.prev[x]; ok {
+				return v
+			}
+		}
+		l := fr.loops[b]
+		for i, p := range b.Preds {
+			if !l.blocks[p] {
+				return e.val(fr, x.Edges[i], st)
+			}
+		}
+	}
 	if l := fr.loops[b]; l != nil {
 		// loop header: induction variables become affine in the iteration symbol
 		sym := string(rune('i' + l.depth - 1))
@@ -1481,7 +1660,8 @@ func (e *Engine) store(fr *frame, st *State, x *ssa.Store) {
 		v = &IntV{B: st.normalize(iv.B), A: iv.A}
 	}
 	if sv, ok := v.(*SliceV); ok && len(sv.pending) > 0 {
-		st.appends[fieldName(p.Obj, p.Path)] = append(st.appends[fieldName(p.Obj, p.Path)], sv.pending...)
+		// pending already holds the elements appended earlier to the value loaded from this field
+		st.appends[fieldName(p.Obj, p.Path)] = append([]Value(nil), sv.pending...)
 	}
 	st.fields[p.Obj.ID][p.Path] = v
 }
